@@ -112,7 +112,7 @@ func sliceAPI(c *Ctx, kind string) {
 				}
 				// reads
 				if kind == "list" && len(p.li) > 0 && c.Rng.Intn(3) == 0 {
-					i := c.Rng.Intn(len(p.li) + 2) - 1
+					i := c.Rng.Intn(len(p.li)+2) - 1
 					got, gerr := r.li.Get(i)
 					if i < 0 || i >= len(p.li) {
 						if isNilErr(gerr) {
@@ -145,7 +145,7 @@ func sliceAPI(c *Ctx, kind string) {
 		c.Sample(map[string]interface{}{"kind": kind, "script": w.desc})
 	}
 	c.Res.Cases = len(cases)
-	c.WriteCases("Api_"+kind, "Base Time Ops Counter Map List Datatype Replicas CheckCrdt", ty, "check_"+kind, cases, 25)
+	c.WriteCases("Api_"+kind, "Base Time Ops Counter Map List Snapshot Datatype Replicas CheckCrdt", ty, "check_"+kind, cases, 25)
 }
 
 func jsonOf(r *replica) interface{} { return r.dt.GetSnapshot().ToJSON() }
